@@ -350,14 +350,15 @@ PROPS["C06"] = dict(
                "and the walked chain is exactly the branch from the anchor to it, None (=> UnknownTipBlockHash) iff it is not in the tree (Verus, all trees); resuming "
                "from an offset cuts the stable key range exactly at the offset key and the unstable source by Utxo order, and the two orders agree (Utxo::cmp = byte order of the stable "
                "encoding, Kani complete), so an offset keeps its meaning when a block stabilises between two pages (Kani, bounded address text)",
-    level_note="the page cut is verified as slices (limit+1 elements are requested; the response keeps the first min(len, limit) in order; a next page is "
+    level_note="get_utxos_internal is verified as a whole: a page request is answered on the branch from the anchor to the tip the token names (whatever "
+               "was added to the tree since), resuming at the element it names; an unknown tip is the explicit UnknownTipBlockHash error; an undecodable token is an error; "
+               "the page cut is verified as slices (limit+1 elements are requested; the response keeps the first min(len, limit) in order; a next page is "
                "announced iff something is left over and its token names this response's tip and the FIRST omitted element), the offset filter of the unstable source "
                "is verified as a slice; NOT decided: the lazy take/map/collect pipeline between them and MultiIter's merge (Kani, bounded lengths); the interleaving "
                "quantifier (blocks arriving, stabilisation, upgrades between pages) rests on C01's unverified ledger refinement",
     explanation="see coverage.bounded for the harnesses with bounded address text.",
     unverified_links=[
         "get_utxos.rs:246-262 (into_iter / take / map / collect: lazy closure pipeline feeding the verified page cut)",
-        "get_utxos_internal's page branch glue (map_err / ok_or): by inspection",
         "interleavings of page requests with ingestion, stabilisation and upgrades",
     ],
     replays=[_rp("f9_pages_are_one_snapshot_across_stabilisation", "F9")],
